@@ -40,6 +40,11 @@ inductive Ev (α : Type)
 
 variable {α : Type} [Num α]
 
+/-- the value returned to the caller of `AbsorbDamage` -/
+def retEv? : Ev α → Option α
+  | .ret o => some o
+  | _ => none
+
 def shieldsOf (s : St α) (t : Int) : List (Inst α) := s.shields t
 
 def setShields (s : St α) (t : Int) (l : List (Inst α)) : St α :=
